@@ -255,6 +255,8 @@ def compareHandles (C0 C1 : Codecs) (k : Checks) (p : String) (h0 : Handle) (r1 
       (if o1.vec != o0.vec && !k.vec then ["vec-unchecked"] else []) ++
       (if o1.sketch != o0.sketch && !k.sketch then ["sketch-unchecked"] else []) ++
       (if o1.lex != o0.lex && !k.lex then ["lex-unchecked"] else []) ++
+      -- checksum compared (since fix 444fffb) but `init_tantivy` swallows the failure: empty index
+      (if o1.lex != o0.lex && k.lex && o1.lex == .fallback then ["lex-swallowed"] else []) ++
       (if h1.laundered && h1.toc != h0.toc then ["toc-laundered"] else []) ++
       (if paySt.any (· == "err") then ["search-swallows-read-errors"] else []) ++
       (if paySt.any (· == "diff") then ["payload-unchecked"] else []) ++
